@@ -1,12 +1,14 @@
 /-
 C12 — concrete witnesses.
 
-1. The full statement "only the canonical bit decomposition is accepted" is false for the
-   call-site parameters of `sample_bits` / `check_pow_witness` (`n = BF::bits() = 31`,
-   BabyBear): on the *executable* field of the driver, the bits of `5 + p` are accepted as a
-   decomposition of `5`, are not the canonical bits, and differ in bit 0 (the sampled index).
-   The same witness is replayed on the real prover by the harness on every run
-   (`corpus/c12/f8_bits_plus_p_babybear31.json`).
+1. Bits, call-site parameters of `sample_bits` / `check_pow_witness` (`n = BF::bits() = 31`,
+   BabyBear), on the *executable* field of the driver. Before the canonicity repair
+   (fixes/C12-1.diff, finding F8, now `fixed`) the relation `bitsAccept` accepted the bits of
+   `5 + p` as a decomposition of `5` (`forged_accepted_before_repair`,
+   `full_statement_bits_false_before_repair`: kept as the record of what the repair removes).
+   The repaired relation `bitsAcceptFixed` rejects that vector and still accepts the honest
+   one (`forged_rejected`, `honest_accepted`); the harness replays the same vector on the
+   real prover on every run (`corpus/c12/f8_*.json`) and it must be rejected.
 2. Coefficients: for `D = 4`, `W = 11` (BabyBear quartic), moved mass is accepted by the ALU
    chain; junk in a higher limb is accepted by the `recompose` table relation.
 3. Non-vacuity of the hypotheses of the `P3R.C12` theorems (`ZMod 3`).
@@ -23,20 +25,28 @@ abbrev BB := PF babyBearP
 /-- bits of `5 + p` over BabyBear, 31 bits -/
 def forged : List BB := canonBits 31 (5 + babyBearP)
 
-theorem forged_accepted : bitsAccept (PF.ofNat 5 : BB) forged = true := by decide
+theorem forged_accepted_before_repair : bitsAccept (PF.ofNat 5 : BB) forged = true := by decide
+
+/-- The repaired gadget rejects the forged vector … -/
+theorem forged_rejected : bitsAcceptFixed babyBearP 31 (PF.ofNat 5 : BB) forged = false := by decide
+
+/-- … already at the runner (the comparison chain ends in a `connect` with the constant 1). -/
+theorem forged_run_conflict : bitsRunOkFixed babyBearP 31 (PF.ofNat 5 : BB) forged = false := by decide
 
 theorem forged_not_canonical : forged ≠ (canonBits 31 5 : List BB) := by decide
 
 theorem forged_index_differs : forged.take 1 ≠ (canonBits 31 5 : List BB).take 1 := by decide
 
-/-- Negation of the full statement (bits) at the call-site parameters. -/
-theorem full_statement_bits_false :
+/-- Negation of the full statement (bits) at the call-site parameters, for the relation
+*without* the modulus comparison (the tree before fixes/C12-1.diff). -/
+theorem full_statement_bits_false_before_repair :
     ¬ ∀ bits : List BB, bits.length = 31 → bitsAccept (PF.ofNat 5 : BB) bits = true →
         bits = canonBits 31 5 :=
-  fun h => forged_not_canonical (h forged (by decide) forged_accepted)
+  fun h => forged_not_canonical (h forged (by decide) forged_accepted_before_repair)
 
-/-- The honest hint is accepted too (the forged vector is a *second* witness). -/
-theorem honest_accepted : bitsAccept (PF.ofNat 5 : BB) (canonBits 31 5 : List BB) = true := by decide
+/-- The honest hint is accepted by the repaired gadget. -/
+theorem honest_accepted :
+    bitsAcceptFixed babyBearP 31 (PF.ofNat 5 : BB) (canonBits 31 5 : List BB) = true := by decide
 
 /-! coefficients, `D = 4`, `W = 11` -/
 
@@ -78,6 +88,11 @@ example : bitsAccept ((0 : ℕ) : ZMod 3) (canonBits 2 (0 + 3) : List (ZMod 3)) 
 example : ∀ bits : List (ZMod 3), bits.length = 1 → bitsAccept ((1 : ℕ) : ZMod 3) bits = true →
     bits = canonBits 1 1 :=
   fun bits hl h => bits_unique (K := ZMod 3) 3 1 (by norm_num) bits hl 1 (by norm_num) h
+
+example : ∀ bits : List (ZMod 3), bits.length = 2 → bitsAcceptFixed 3 2 ((1 : ℕ) : ZMod 3) bits = true →
+    bits = canonBits 2 1 :=
+  fun bits hl h => bits_canonical_fixed (K := ZMod 3) 3 2 2 (by norm_num) (by norm_num) le_rfl bits hl 1
+    (by norm_num) h
 
 example : coefAccept (2 : ZMod 3) 2 .alu false (fun _ => 1) (massMove (fun _ => 1) 1) = true :=
   (alu_not_unique (K := ZMod 3) 2 2 le_rfl false (fun _ => 1) 1 one_ne_zero).1
